@@ -261,7 +261,7 @@ void Run::H::operator()(boost::system::error_code const& ec, tcp::socket peer) c
 // ---------------------------------------------------------------------------
 // scenario catalogue
 
-constexpr int NSCN = 21;
+constexpr int NSCN = 22;
 
 Topology topo_for(int id)
 {
@@ -384,6 +384,26 @@ std::vector<int> build(Run& R, int id, int param, bool with_control)
 			R.udp_recv(tx, 3, 0);
 			int t1 = R.add(K_TIMER, 0, "clutter"); R.timer_wait(t1, 1);
 			targets = {tx};
+			break;
+		}
+		case 21:
+		{
+			// I/O started while the connect is still in progress is parked until the connection is up: a read (or a
+			// wait-for-read) and a write are outstanding on the client together with the connect, SYN in flight
+			int cli = R.add(K_TCP, 0, "client"), acc = R.add(K_ACC, 1, "acceptor"), srv = R.add(K_TCP, 1, "server");
+			listen(acc);
+			R.accept(acc, param % 3, srv, [r, srv, alive](boost::system::error_code const& e, std::size_t) {
+				if (e || !alive(srv)) return;
+				std::shared_ptr<std::function<void()>> rd(new std::function<void()>());
+				*rd = [r, srv, rd, alive]() { r->tcp_read(srv, 4000, [r, srv, rd, alive](boost::system::error_code const& e2, std::size_t) { if (!e2 && alive(srv)) (*rd)(); }); };
+				(*rd)();
+				r->at(30, [r, srv, alive]() { if (alive(srv) && r->objs[std::size_t(srv)].ts->is_open()) r->tcp_write(srv, 500); });
+			});
+			R.tcp_connect(cli, sep);
+			if (param % 2) R.tcp_wait_read(cli); else R.tcp_read(cli, 800);
+			R.tcp_write(cli, 1200);
+			int t1 = R.add(K_TIMER, 0, "clutter"); R.timer_wait(t1, 3, [r, t1, alive](boost::system::error_code const& e, std::size_t) { if (!e && alive(t1)) r->timer_wait(t1, 4); });
+			targets = {cli, acc};
 			break;
 		}
 		case 19:
@@ -603,7 +623,7 @@ Outcome run_scn(int id, int param, int k, int kind, int objsel, bool c12, Outcom
 	return out;
 }
 
-int scenario_param_count(int id) { return (id == 1 || id == 7 || id == 8) ? 3 : (id == 13 || id == 14 || id == 17) ? 2 : 1; }
+int scenario_param_count(int id) { return (id == 1 || id == 7 || id == 8) ? 3 : (id == 13 || id == 14 || id == 17) ? 2 : id == 21 ? 6 : 1; }
 
 Verdict run_case(Case const& c, Ctx& ctx)
 {
